@@ -38,14 +38,14 @@ CHECKS = {
     },
     'C08': {
         'engine': 'simdev',
-        'technique': 'deterministic simulation: seeded interleavings of several clients over shared processors and evicting manager caches, fresh-processor reference, ddmin replay',
+        'technique': 'deterministic simulation: seeded interleavings of several clients over shared processors and evicting manager caches, fresh-processor / pristine-process reference, ddmin replay; exhaustive ordered-pair sweep of cached-year states; Python ZoneSpecifier histories',
         'text': 'Seeded search over call histories: 2-6 TimeZone clients of every binding kind share 1-2 processors per database or compete for ZoneManager caches of size 1..4; queries of all kinds with in-range, boundary and out-of-range / sentinel arguments, failing queries repeated and interleaved; every answer is compared with two freshly constructed processors in differently poisoned storage. Coverage of (binding, cache state, query, argument class) tuples and of ordered cached-year pairs is measured. Sampling, not the exhaustive 52x52 product per zone.',
         'note': 'Trusted: shim, clang, that a processor constructed with its ZoneInfo is "fresh". Crashes that need no history are noted for C09, not reported here. The Python ZoneSpecifier half is a separate engine (pysim) run by the same command.',
         'design': '§5.C08, Appendix A.3',
     },
     'C09': {
         'engine': 'simdev',
-        'technique': 'deterministic simulation with fault injection under ASan+UBSan: whole-device call histories (repeated / interleaved failing queries, reboots, clock faults) with error-persistence and pool monitors',
+        'technique': 'deterministic simulation with fault injection under ASan+UBSan: whole-device call histories (repeated / interleaved failing queries, reboots, clock faults, torn console lines) with error-persistence and pool monitors; a second seeded simulator under MemorySanitizer; pool-bound sweep over compiler-generated zones',
         'text': 'Decides the history-and-repetition half of C09: seeded whole-device runs (all tz query kinds incl. INT32 extremes, sentinel, invalid components, out-of-range years repeated 1-3 times and interleaved with valid ones; save/reboot/restore; SystemClockLoop with a faulty reference; queries at the clock\'s current time) in the ASan+UBSan build. Any sanitizer report is attributed by source location; errors must stay errors on every repeat; extended pool high-water < transitionBufSize and < 8; basic dropped-transition counter (guarded hook) stays 0. The "for ALL argument values / every generated zone" half is an input sweep and is NOT decided; no-history UB met on the way is still reported.',
         'note': 'Trusted: shim, sanitizer runtimes, the generator\'s knowledge of which arguments are out of range (years <= startYear-3 or >= untilYear+2, sentinel, components the library itself defines invalid). Date -> epoch-seconds conversions of dates outside 1932..2067 are not exercised (input-domain half). UBSan reports a location once per process.',
         'design': '§5.C09',
@@ -59,7 +59,7 @@ CHECKS = {
     },
     'C20': {
         'engine': 'detcompile',
-        'technique': 'deterministic simulation of the compiler\'s environment: tzcompiler.py re-run under seeded perturbations (hash seed, jumping clock, shuffled directory listings, pid, random, TZ, locale, umask, cwd) and byte comparison of all outputs',
+        'technique': 'deterministic simulation of the compiler\'s environment: tzcompiler.py re-run under seeded perturbations (hash seed, jumping clock, shuffled directory listings, pid, random, TZ, locale, umask, cwd, environment variables, stdio kind, stale outputs, an earlier compilation of another source by the same user) and byte comparison of all outputs',
         'text': 'Decides clause 1 only ("compiling the same source twice produces identical files"): the real tzcompiler.py is run in fresh interpreters over a TZ source reconstructed from the zonedbx tables, for scope x language x action-set x year-range configurations, 6 (quick) / 48 (thorough) seed-drawn environments each; every emitted file must equal the unperturbed control byte for byte (reason lists inside one comment compared as multisets). A difference is reported with the perturbation minimised to the dimensions that matter. Clauses 2-6 are relations between artifacts of one execution: not decided.',
         'note': 'Trusted: the perturbation shim (sitecustomize.py) really intercepts time/datetime/os.listdir/os.scandir/os.getpid/random; the reconstructed source stands in for the original TZ release.',
         'design': '§5.C20',
